@@ -632,11 +632,58 @@ def rule_r3_merge(F, rep):
     rep.floor(R, nrows, 3, "merge states")
 
 
+def rule_r5(F, rep):
+    R = rep.rule("C07.R5", "a field is evaluated relative to the layer it was found in: in find_object_field_thunk the layer index "
+                 "handed to init_object_env / get_object_layer_env is the one find_field returned, never the index the search "
+                 "started from (super, `in super` and `+:` inside the field are resolved from that layer)")
+    fn = F.fn("<%s>::find_object_field_thunk" % PROGRAM)
+    FF = "<%s>::find_field" % OBJ
+    bodies = [fn] + list(F.closures_of(fn))
+    n = 0
+    # the local(s) holding find_field's index in the parent
+    P0 = prov.Prov(F, fn.body)
+    for g in bodies:
+        P = prov.Prov(F, g.body)
+        for bb, t in g.body.calls():
+            nme = callee_name(t) or ""
+            if nme.rsplit("::", 1)[-1] not in ("init_object_env", "get_object_layer_env"):
+                continue
+            n += 1
+            idx = [x for x in t["xs"] if "t" in x and g.body.ty(x["t"])["s"] == "usize"]
+            org = P.origins_op(idx[0]) if idx else set()
+            good = False
+            if g is fn:
+                good = bool(org) and all(o[0] == "call" and o[1] == FF for o in org)
+            else:
+                # captured: which parent operand fills the upvar
+                ups = [o for o in org if o[0] == "arg" or o[0] == "field"]
+                good = False
+                for b2, si, st in fn.body.assigns():
+                    rv = st["rv"]
+                    if rv["k"] == "agg" and rv["ak"] == "closure" and rv["d"] == g.q:
+                        porg = set()
+                        for y in rv["xs"]:
+                            if "t" in y:
+                                ty = fn.body.ty(y["t"])
+                                inner = fn.body.ty(ty["t"])["s"] if ty["k"] == "ref" else ty["s"]
+                                if inner == "usize":
+                                    porg |= P0.origins_op(y)
+                        good = bool(porg) and all(o[0] == "call" and o[1] == FF for o in porg)
+            rep.ob(R, "%s|%s" % (g.q.rsplit("::", 1)[-1], nme.rsplit("::", 1)[-1]), good)
+            if not good:
+                rep.violation(R, "find_object_field_thunk|%s|layer-index" % nme.rsplit("::", 1)[-1],
+                              "find_object_field_thunk hands %s a layer index that is not the one returned by find_field: fields "
+                              "found in a deeper layer would resolve super/self-layer lookups from the wrong layer"
+                              % nme.rsplit("::", 1)[-1], g.body.span(t["sp"]))
+    rep.floor(R, n, 2, "environment constructions in find_object_field_thunk")
+
+
 def run(F, rep, tier):
     R1, R2 = rule_r1_r2_objects(F, rep)
     rule_r2_clones(F, rep, R2)
     rule_r3(F, rep)
     rule_r3_merge(F, rep)
+    rule_r5(F, rep)
     from . import objflags
     objflags.rule(F, rep, "C07.R2b")
     from . import visibility
